@@ -60,6 +60,8 @@ class Ctx:
         self._tcp_tail = {}
         self._last_table = None
         self._cookies = {}
+        self.pad_rate = 0.12
+        self._pad_rng = random.Random(seed * 7919 + shard)
         self.crash_is_violation = prop in MUST_ANSWER
 
     # ---- driver life cycle --------------------------------------------------
@@ -128,7 +130,28 @@ class Ctx:
             self.drv = None
             return None
 
+    def pad(self, f):
+        """Ethernet padding / trailer after the IP datagram (never part of the payload): short frames are zero-padded to
+        the 60-byte minimum as real NICs do, longer ones sometimes get a 4-byte trailer.  Only applied to IP frames whose
+        length fields are consistent, with probability self.pad_rate."""
+        if not self.pad_rate or len(f) < 34 or self._pad_rng.random() >= self.pad_rate:
+            return f
+        et = f[12:14]
+        if et == b"\x08\x00":
+            if (f[14] & 15) < 5 or int.from_bytes(f[16:18], "big") != len(f) - 14:
+                return f
+        elif et == b"\x86\xdd":
+            if len(f) < 54 or int.from_bytes(f[18:20], "big") != len(f) - 54:
+                return f
+        else:
+            return f
+        self.stats["padded_frames"] += 1
+        if len(f) < 60:
+            return f + bytes(60 - len(f)) if self._pad_rng.random() < 0.7 else f + bytes(self._pad_rng.getrandbits(8) for _ in range(60 - len(f)))
+        return f + bytes(self._pad_rng.getrandbits(8) for _ in range(self._pad_rng.choice([1, 4, 4, 18])))
+
     def send(self, f):
+        f = self.pad(f)
         d = self.driver()
         if self.record:
             self.history.append(f)
@@ -141,7 +164,7 @@ class Ctx:
         return r
 
     def send_many(self, fs):
-        fs = list(fs)
+        fs = [self.pad(f) for f in fs]
         d = self.driver()
         base = len(self.history)
         if self.record:
